@@ -28,6 +28,27 @@ TARGET = os.path.join(WORK, "target")
 REPO = "/repo"
 JVM_LIB = "-DTLA-Library=" + os.path.join(SPEC, "lib")
 
+# Testing a seeded change without touching /repo: ZV_REPO=<scratch worktree of infinilabs/zipora>.
+# The harness crate is copied to work/alt-<tag>/harness with its path dependency pointing at that
+# tree and its own target directory; evidence and replay files of such a run stay under work/.
+ALT = None
+if os.environ.get("ZV_REPO") and os.path.realpath(os.environ["ZV_REPO"]) != "/repo":
+    REPO = os.path.realpath(os.environ["ZV_REPO"])
+    ALT = hashlib.sha1(REPO.encode()).hexdigest()[:8]
+    _alt = os.path.join(WORK, "alt-" + ALT)
+    _h = os.path.join(_alt, "harness")
+    os.makedirs(_h, exist_ok=True)
+    subprocess.run(["rsync", "-a", "--delete", "--exclude", "target", "--exclude", ".cargo", os.path.join(HARNESS, "") , _h + "/"], check=True)
+    _ct = open(os.path.join(HARNESS, "Cargo.toml")).read().replace('path = "/repo"', 'path = "%s"' % REPO)
+    open(os.path.join(_h, "Cargo.toml"), "w").write(_ct)
+    os.makedirs(os.path.join(_h, ".cargo"), exist_ok=True)
+    _cc = open(os.path.join(HARNESS, ".cargo", "config.toml")).read().replace('target-dir = "../work/target"', 'target-dir = "%s"' % os.path.join(_alt, "target"))
+    open(os.path.join(_h, ".cargo", "config.toml"), "w").write(_cc)
+    HARNESS = _h
+    TARGET = os.path.join(_alt, "target")
+    WORK = os.path.join(_alt, "work")
+    os.makedirs(WORK, exist_ok=True)
+
 
 class ToolError(Exception):
     pass
@@ -200,7 +221,9 @@ class Ctx:
         self.work = os.path.join(WORK, pid)
         shutil.rmtree(self.work, ignore_errors=True)
         os.makedirs(self.work, exist_ok=True)
-        self.replays = os.path.join(VERIF, "replays", pid)
+        self.replays = os.path.join(VERIF, "replays", pid) if ALT is None else os.path.join(WORK, "replays", pid)
+        if ALT is not None:
+            self.is_replay = True   # evidence of an alternative-tree run is not the registered evidence
         os.makedirs(self.replays, exist_ok=True)
         self.violations = []      # dicts: replay, what
         self.kf_hit = {}          # id -> count
